@@ -27,7 +27,17 @@ def anchor_files(prop: str):
 
 def run_rules(mod, ctx, prop):
     """the property's own rules, then the rules common to all properties (state shared between calls) on its anchor files"""
-    out = mod.run(ctx)
+    from sa.index import AnalysisError as _AE, AnchorMissing as _AM
+    pending = None
+    try:
+        out = mod.run(ctx)
+    except _AM:
+        raise
+    except _AE as e:
+        # the property's own rules lost their footing: the rules common to all properties are still run on the anchor files --
+        # a violation they name is reported; without one the run stays undecided
+        pending = e
+        out = (getattr(mod, "EXPLANATION", ""), getattr(mod, "ASSUMPTIONS", []))
     from rules.common import check_call_shapes, check_declarations, check_effects, check_public_exports, check_shared_state, check_truthiness, check_validation_bypass
     check_shared_state(ctx, anchor_files(prop))
     check_declarations(ctx, anchor_files(prop))
@@ -35,7 +45,12 @@ def run_rules(mod, ctx, prop):
     check_truthiness(ctx, anchor_files(prop))
     check_validation_bypass(ctx, anchor_files(prop))
     check_call_shapes(ctx, anchor_files(prop))
-    check_public_exports(ctx, mod, anchor_files(prop))
+    if pending is None:
+        check_public_exports(ctx, mod, anchor_files(prop))
+    elif not ctx.findings:
+        raise pending
+    else:
+        ctx.undec(getattr(pending, "rule", None) or "E0", getattr(pending, "site", None) or "-", str(pending))
     return out
 
 
